@@ -533,10 +533,10 @@ fn reference(parts: &[(Out, bool)], order: &[usize], tick: u64, dur: u64, random
 }
 
 pub fn c11_scenario(ch: &mut Chooser, thorough: bool) -> Exec {
-    let tick = *ch.of("tick_ms", &[2u64, 3]);
-    let dur = *ch.of("duration_ms", &[4u64, 5]);
+    let tick = *ch.of("tick_ms", if thorough { &[1u64, 2, 3, 4][..] } else { &[2u64, 3][..] });
+    let dur = *ch.of("duration_ms", if thorough { &[3u64, 4, 5, 6][..] } else { &[4u64, 5][..] });
     let random_order = thorough && ch.flag("random_host_order");
-    let times: &[u64] = &[0, 1, 3, 4, 5, 7];
+    let times: &[u64] = if thorough { &[0, 1, 2, 3, 4, 5, 6, 7, 9] } else { &[0, 1, 3, 4, 5, 7] };
     let mut menu_a: Vec<Out> = vec![Out::Never];
     for &t in times {
         menu_a.push(Out::Ok(t));
@@ -544,7 +544,9 @@ pub fn c11_scenario(ch: &mut Chooser, thorough: bool) -> Exec {
     }
     menu_a.extend([Out::PanicMain(0), Out::PanicMain(3), Out::PanicSpawnedAwaited(1), Out::PanicDetached(3), Out::PanicDetachedRuntime(3), Out::ErrSpawnedAwaited(3), Out::ErrDetachedThenOk(1), Out::OkLeavingTasks(1)]);
     let a = *ch.of("client_a", &menu_a);
-    let b = *ch.of("client_b", &[Out::Absent, Out::Ok(0), Out::Ok(5), Out::Never, Out::Ok(7), Out::Err(1), Out::Err(5)]);
+    let b_quick = [Out::Absent, Out::Ok(0), Out::Ok(5), Out::Never, Out::Ok(7), Out::Err(1), Out::Err(5)];
+    let b_thorough = [Out::Absent, Out::Ok(0), Out::Ok(5), Out::Never, Out::Ok(7), Out::Err(1), Out::Err(5), Out::Ok(2), Out::Ok(4), Out::Err(4), Out::PanicMain(2), Out::PanicDetachedRuntime(5)];
+    let b = *ch.of("client_b", if thorough { &b_thorough[..] } else { &b_quick[..] });
     let h = *ch.of("host", &[Out::Absent, Out::Never, Out::Err(1), Out::Err(7), Out::Ok(1), Out::PanicMain(3), Out::PanicDetached(1), Out::PanicDetachedRuntime(1), Out::OkLeavingTasks(1)]);
     LEFTOVER.with(|l| *l.borrow_mut() = (0, vec![]));
     let no_clients = a == Out::Never && b == Out::Absent && ch.flag("zero_clients_instead");
@@ -761,7 +763,17 @@ pub fn c11_scenario(ch: &mut Chooser, thorough: bool) -> Exec {
         let p = Rc::new(RefCell::new(0));
         sim.client("late", outcome_program(Out::Ok(1), p));
         let r = vx_core::catch(|| sim.run());
-        let ok = matches!(r, Ok(Ok(()))) || (matches!(r, Ok(Err(_)) | Err(_)) && h_eff != Out::Absent && h_eff != Out::Never && h_eff.finish().map(|f| f.1 != 'o').unwrap_or(true));
+        // the late client finishes 1ms into the second run, i.e. in step f (0-based) of that
+        // run, where a finish on a step boundary may be attributed to either side; the run
+        // times out when the duration is exceeded at the end of an earlier step
+        let before_ms = before.as_millis() as u64;
+        let fs: Vec<u64> = if 1 % tick == 0 { vec![1 / tick - 1, 1 / tick] } else { vec![1 / tick] };
+        let may_finish = fs.iter().any(|f| *f == 0 || before_ms + f * tick <= dur);
+        let may_time_out = fs.iter().any(|f| *f > 0 && before_ms + f * tick > dur);
+        let timed_out = matches!(&r, Ok(Err(e)) if e.to_string().contains("Ran for duration"));
+        let ok = (matches!(r, Ok(Ok(()))) && may_finish)
+            || (timed_out && may_time_out)
+            || (!timed_out && matches!(r, Ok(Err(_)) | Err(_)) && h_eff != Out::Absent && h_eff != Out::Never && h_eff.finish().map(|f| f.1 != 'o').unwrap_or(true));
         if !ok || (matches!(r, Ok(Ok(()))) && sim.elapsed() <= before && before < Duration::from_millis(dur)) {
             violation = Some(Violation::new("second-run", format!("{obs}; second run after registering a client that finishes after 1ms returned {:?} with elapsed {:?} (was {:?})", r.map(|x| x.map_err(|e| e.to_string())), sim.elapsed(), before)));
         }
